@@ -237,6 +237,8 @@ enum PutF {
     TooLarge,
     Ro,
     Panic,
+    /// the write of the entry to its temporary file fails (as on a full disk) AFTER the space was reserved
+    WFail,
 }
 #[derive(Clone, Copy, PartialEq, Eq, Debug, Default)]
 enum GetF {
@@ -434,6 +436,12 @@ impl Storage for FaultStorage {
             PutF::TooLarge => Err(sccache::lru_disk_cache::Error::FileTooLarge.into()),
             PutF::Ro => ReadOnlyStorage(self.inner.clone()).put(key, entry).await,
             PutF::Panic => panic!("injected panic in Storage::put"),
+            PutF::WFail => {
+                set_file_size_limit(Some(16));
+                let r = self.inner.put(key, entry).await;
+                set_file_size_limit(None);
+                r
+            }
         }
     }
 
@@ -498,6 +506,12 @@ impl Storage for FaultStorage {
             PutF::Err | PutF::TooLarge => Err(anyhow::anyhow!("injected preprocessor cache write error")),
             PutF::Ro => ReadOnlyStorage(self.inner.clone()).put_preprocessor_cache_entry(key, e).await,
             PutF::Panic => panic!("injected panic in Storage::put_preprocessor_cache_entry"),
+            PutF::WFail => {
+                set_file_size_limit(Some(16));
+                let r = self.inner.put_preprocessor_cache_entry(key, e).await;
+                set_file_size_limit(None);
+                r
+            }
         }
     }
 }
@@ -568,7 +582,7 @@ async fn make_storage(
 ) -> Arc<FaultStorage> {
     let disk = DiskCache::new(
         cache,
-        1 << 30,
+        CAPACITY.load(Ordering::SeqCst),
         rt,
         PreprocessorCacheModeConfig {
             use_preprocessor_cache_mode: ppmode,
@@ -609,7 +623,7 @@ fn parse_faults(x: &Sx) -> Result<Faults, String> {
     if l.len() != 5 {
         return Err("faults arity".into());
     }
-    let put_t = [("none", PutF::None), ("err", PutF::Err), ("toolarge", PutF::TooLarge), ("ro", PutF::Ro), ("panic", PutF::Panic)];
+    let put_t = [("none", PutF::None), ("err", PutF::Err), ("toolarge", PutF::TooLarge), ("ro", PutF::Ro), ("panic", PutF::Panic), ("wfail", PutF::WFail)];
     Ok(Faults {
         ppget: sym_of(
             &l[0],
@@ -1017,6 +1031,23 @@ fn stats_sx(s: &ServerStats) -> Sx {
     Sx::L(v)
 }
 
+/// size limit of the DiskCache of the current history (a small one when bit 1 of the case's first field is set)
+static CAPACITY: AtomicU64 = AtomicU64::new(1 << 30);
+
+/// RLIMIT_FSIZE of the process: a write beyond it fails with EFBIG (SIGXFSZ is ignored), which is how a store is
+/// made to fail AFTER its reservation, while the entry is written to its temporary file.
+fn set_file_size_limit(limit: Option<u64>) {
+    unsafe {
+        let mut r = libc::rlimit { rlim_cur: 0, rlim_max: 0 };
+        libc::getrlimit(libc::RLIMIT_FSIZE, &mut r);
+        r.rlim_cur = match limit {
+            Some(l) => l as libc::rlim_t,
+            None => r.rlim_max,
+        };
+        libc::setrlimit(libc::RLIMIT_FSIZE, &r);
+    }
+}
+
 static PAUSED: std::sync::atomic::AtomicBool = std::sync::atomic::AtomicBool::new(false);
 
 /// How long a request may stay unanswered: 8 s of real time (a request of these histories takes milliseconds), or 600 s of virtual time on the paused clock
@@ -1044,7 +1075,9 @@ async fn run_case(case: &Sx, rt: tokio::runtime::Handle) -> Result<Sx, String> {
     if l.len() != 3 {
         return Err("case arity".into());
     }
-    let ppmode = l[0].as_bool();
+    // first field: bit 0 = preprocessor cache mode, bit 1 = a small cache (room for four result entries)
+    let ppmode = l[0].u64() & 1 == 1;
+    CAPACITY.store(if l[0].u64() & 2 == 2 { 2000 } else { 1 << 30 }, Ordering::SeqCst);
     let mut oracles = [Oracle::default(); NTU];
     for (i, o) in l[1].list().iter().enumerate().take(NTU) {
         let f = o.list();
@@ -1177,6 +1210,71 @@ async fn run_case(case: &Sx, rt: tokio::runtime::Handle) -> Result<Sx, String> {
             "restart" => {
                 w.restart(step.arg(1).is_sym("ro")).await;
                 obs.push(Sx::L(vec![Sx::sym("restart"), w.disk(), w.stats().await]));
+            }
+            "twin" => {
+                // ( twin tu ): two concurrent forced-recache requests of ONE unit: both compile, both store under the
+                // same key.  Using the sync points of DiskCache::put, the first store to reserve waits until the
+                // second has reserved too; then its write is made to fail (disk full) and it gives up; only then
+                // may the second one write and commit.
+                let tu = step.arg(1).u64() as usize;
+                let r = Req { tu, class: "compile".into(), cc: "recache".into(), extract_ok: true, faults: Faults::default() };
+                struct Twin {
+                    reserved: u32,
+                    release_second: bool,
+                }
+                let state = Arc::new((Mutex::new(Twin { reserved: 0, release_second: false }), std::sync::Condvar::new()));
+                let st2 = state.clone();
+                sccache::verif_hooks::set_sync_controller(Some(Box::new(move |point: &str, key: &Path, _len: u64| {
+                    if point != "put.reserved" || key.starts_with("preprocessor") {
+                        return;
+                    }
+                    let (m, cv) = &*st2;
+                    let mut g = m.lock().unwrap();
+                    g.reserved += 1;
+                    if g.reserved == 1 {
+                        // first: wait (bounded) for the twin's reservation, then write under a full disk
+                        let (g2, _) = cv.wait_timeout_while(g, Duration::from_secs(5), |t| t.reserved < 2).unwrap();
+                        drop(g2);
+                        set_file_size_limit(Some(16));
+                    } else if g.reserved == 2 {
+                        cv.notify_all();
+                        // second: wait until the first has failed and given up
+                        let (g2, _) = cv.wait_timeout_while(g, Duration::from_secs(8), |t| !t.release_second).unwrap();
+                        drop(g2);
+                    }
+                })));
+                let (p0, c0) = w.runs();
+                let (m1, o1) = w.compile_msg(&r);
+                let (m2, _) = w.compile_msg(&r);
+                let f1 = w.rt.spawn(World::run_req(w.service.clone(), m1, o1.clone()));
+                let f2 = w.rt.spawn(World::run_req(w.service.clone(), m2, o1));
+                // whichever finishes first is the one whose write failed
+                let (first, other) = match futures::future::select(f1, f2).await {
+                    futures::future::Either::Left((a, b)) => (a, b),
+                    futures::future::Either::Right((a, b)) => (a, b),
+                };
+                set_file_size_limit(None);
+                {
+                    let (m, cv) = &*state;
+                    m.lock().unwrap().release_second = true;
+                    cv.notify_all();
+                }
+                let second = other.await;
+                sccache::verif_hooks::set_sync_controller(None);
+                set_file_size_limit(None);
+                let (p1, c1) = w.runs();
+                let res = vec![
+                    first.unwrap_or_else(|_| Sx::L(vec![Sx::sym("join_err")])),
+                    second.unwrap_or_else(|_| Sx::L(vec![Sx::sym("join_err")])),
+                ];
+                obs.push(Sx::L(vec![
+                    Sx::sym("twin"),
+                    Sx::L(res),
+                    Sx::n(p1[tu] - p0[tu]),
+                    Sx::n(c1[tu] - c0[tu]),
+                    w.disk(),
+                    w.stats().await,
+                ]));
             }
             "ppforge" => {
                 // ( ppforge tu kind ): replace the unit's preprocessor-cache entry by a WELL-FORMED entry (written
@@ -1384,6 +1482,9 @@ fn main() {
         std::process::exit(2);
     }
     vh::quiet_panics();
+    unsafe {
+        libc::signal(libc::SIGXFSZ, libc::SIG_IGN);
+    }
     let hard = Duration::from_secs(
         std::env::var("VH_CASE_TIMEOUT").ok().and_then(|v| v.parse().ok()).unwrap_or(45),
     );
